@@ -94,7 +94,12 @@ class Read:
                 stats['read_spelling'][o[1]] += 1; stats['read_ndim'][len(a['dims'])] += 1
                 fmt = rng.choice(['NETCDF4', 'NETCDF4', 'NETCDF3_CLASSIC'])
                 if fmt != 'NETCDF4' and 'O' in a['axdtype']: fmt = 'NETCDF4'
-                cases.append({'arr': a, 'get': o[1:5], 'fmt': fmt, 'via': rng.choice(['handle', 'handle', 'read_nc', 'dataset_read'])})
+                via = rng.choice(['handle', 'handle', 'read_nc', 'dataset_read'])
+                # the file may hold, before 'v', a variable over the same dimensions in the REVERSE order: the file's dimension order
+                # then differs from v's own, and a read through the dataset (a list of names) must still index v by dimension NAME
+                rev = len(a['dims']) >= 2 and all(len(l) > 0 for l in a['labels']) and rng.random() < 0.5
+                if rev: stats['read_file_dims_reversed'][via] += 1
+                cases.append({'arr': a, 'get': o[1:5], 'fmt': fmt, 'via': via, 'rev_first': rev})
                 if len(cases) >= n: break
         return cases
 
@@ -107,7 +112,11 @@ class Read:
             a = mk_array(c['arr'])
             with warnings.catch_warnings():
                 warnings.simplefilter('ignore')
-                a.write_nc(f, 'v', mode='w', format=c['fmt'])
+                if c.get('rev_first'):
+                    ds0 = D.Dataset(); ds0['zz_rev'] = a.transpose(); ds0['v'] = a
+                    ds0.write_nc(f, mode='w', format=c['fmt'])
+                else:
+                    a.write_nc(f, 'v', mode='w', format=c['fmt'])
                 loaded = D.read_nc(f, 'v')
             spelling, form, tol, keepdims = c['get'][0], c['get'][1], c['get'][2], c['get'][3]
             mem = run_obs(lambda: apply_get(loaded, spelling, form, tol, keepdims, False))
@@ -119,8 +128,16 @@ class Read:
                     idx, kw = ops.py_form(form); t = ops.py_tol(tol)
                     if spelling == 'take_pos': kw['indexing'] = 'position'
                     if spelling == 'take_lab': kw['indexing'] = 'label'
+                    if c.get('rev_first'):
+                        # through the dataset a dimension given by POSITION is a position in the file's dimension order, not in v's:
+                        # dimensions are named here
+                        if isinstance(idx, dict): idx = dict((loaded.dims[k_] if isinstance(k_, int) else k_, v_) for k_, v_ in idx.items())
+                        if isinstance(kw.get('axis'), int): kw['axis'] = loaded.dims[kw['axis']]
                     if c['via'] == 'read_nc':
-                        disk = run_obs(lambda: D.read_nc(f, 'v', indices=idx, tol=t, keepdims=keepdims, **kw))
+                        if c.get('rev_first') and (isinstance(idx, dict) or 'axis' in kw):
+                            disk = run_obs(lambda: D.read_nc(f, ['v'], indices=idx, tol=t, keepdims=keepdims, **kw)['v'])      # a list of names: dataset read
+                        else:
+                            disk = run_obs(lambda: D.read_nc(f, 'v', indices=idx, tol=t, keepdims=keepdims, **kw))
                     else:
                         disk = run_obs(lambda: h.read(['v'], indices=idx if isinstance(idx, dict) or 'axis' in kw else dict(zip(loaded.dims, idx if isinstance(idx, tuple) else (idx,))),
                                                       tol=t, keepdims=keepdims, **kw)['v'])
